@@ -121,7 +121,7 @@ func seqRecord(c *proto.Corpus, ids []int, upto int, expect []string, class, bui
 
 // buildOracle computes the sequential reference (DESIGN §3.8) and checks that it is
 // order- and history-independent.
-func buildOracle(b builds, cfg tierCfg) oracleInfo {
+func buildOracle(b builds, cfg tierCfg, pre map[int]string) oracleInfo {
 	var oi oracleInfo
 	corpusPath := filepath.Join(scratch, "corpus.json")
 	env := append(os.Environ(), "GOMAXPROCS=1")
@@ -150,7 +150,10 @@ func buildOracle(b builds, cfg tierCfg) oracleInfo {
 	// ---- isolated executions: one call alone in a fresh process ----
 	var isoMu sync.Mutex
 	iso := map[int]proto.OracleOut{}
-	excluded := map[int]string{} // calls that crash or hang even alone: input-only, outside C13
+	excluded := map[int]string{} // calls that crash or hang even alone (input-only, outside C13), or that a known finding names
+	for id, why := range pre {
+		excluded[id] = why
+	}
 	sem := make(chan struct{}, workers)
 	isoOf := func(ids []int) {
 		var iw sync.WaitGroup
@@ -627,70 +630,100 @@ func doCheck(b builds, cfg tierCfg) int {
 	if degraded {
 		logf("the tree contains %d construct(s) the simulator has no model for -> DEGRADED mode (free-running goroutines under -race)", len(b.rep.Unmodelled))
 	}
-	oi := buildOracle(b, cfg)
-	logf("sequential reference: %d calls, %d executed in batch passes (canonical, reverse, shuffled x2, soak %d in one process), %d alone in a fresh process, %d over the step bound",
-		len(oi.corpus.Calls), oi.batch, oi.soak, oi.iso, oi.dropped)
-	if oi.unmanaged > 0 && !degraded {
-		degraded = true
-		degradedMode = true
-		b.rep.Unmodelled = append(b.rep.Unmodelled, []byte(fmt.Sprintf(`{"what":"%d goroutine(s) started by the library outside of any call (package initialisation): not under the simulator's control","pos":"runtime observation"}`, oi.unmanaged)))
-		logf("the library starts goroutines during package initialisation -> DEGRADED mode")
-	}
-	var agg *simAgg
-	var viol *proto.Record
-	if oi.viol != nil {
-		viol = oi.viol
-		agg = newAgg()
-	} else {
-		agg = runSims(b, cfg, degraded)
-		logf("simulation: %d runs in %d processes, %d ops, %.3g steps, %d preemptive switches", agg.runs, agg.procs, agg.ops, float64(agg.steps), agg.switches)
-		if len(agg.records) == 0 && len(agg.crashes) > 0 {
-			sort.Slice(agg.crashes, func(i, j int) bool { return agg.crashes[i].proc < agg.crashes[j].proc })
-			viol = crashRecord(b, cfg, agg.crashes[0])
+	knownExcluded := map[int]string{}
+	announced := map[string]bool{}
+	var (
+		oi            oracleInfo
+		agg           *simAgg
+		viol, final   *proto.Record
+		eq, cmp, code int
+		st            *selfTestResult
+		mt            *modelTestResult
+		replayPath    string
+	)
+	for attempt := 0; ; attempt++ {
+		again := false
+		oi = buildOracle(b, cfg, knownExcluded)
+		logf("sequential reference: %d calls, %d executed in batch passes (canonical, reverse, shuffled x2, soak %d in one process), %d alone in a fresh process, %d over the step bound",
+			len(oi.corpus.Calls), oi.batch, oi.soak, oi.iso, oi.dropped)
+		if oi.unmanaged > 0 && !degraded {
+			degraded = true
+			degradedMode = true
+			b.rep.Unmodelled = append(b.rep.Unmodelled, []byte(fmt.Sprintf(`{"what":"%d goroutine(s) started by the library outside of any call (package initialisation): not under the simulator's control","pos":"runtime observation"}`, oi.unmanaged)))
+			logf("the library starts goroutines during package initialisation -> DEGRADED mode")
 		}
-		if len(agg.records) > 0 {
-			sort.Slice(agg.records, func(i, j int) bool {
-				if agg.records[i].Proc != agg.records[j].Proc {
-					return agg.records[i].Proc < agg.records[j].Proc
-				}
-				return agg.records[i].Build > agg.records[j].Build
-			})
-			viol = agg.records[0]
-		}
-	}
-	// determinism cross-check between the two builds (same seed, same proc => same runs)
-	eq, cmp := 0, 0
-	for p, s := range agg.sigAll["race"] {
-		if s2, ok := agg.sigAll["plain"][p]; ok && agg.runsByProc["race"][p] == agg.runsByProc["plain"][p] {
-			cmp++
-			if s == s2 {
-				eq++
+		agg, viol = nil, nil
+		if oi.viol != nil {
+			viol = oi.viol
+			agg = newAgg()
+		} else {
+			agg = runSims(b, cfg, degraded)
+			logf("simulation: %d runs in %d processes, %d ops, %.3g steps, %d preemptive switches", agg.runs, agg.procs, agg.ops, float64(agg.steps), agg.switches)
+			if len(agg.records) == 0 && len(agg.crashes) > 0 {
+				sort.Slice(agg.crashes, func(i, j int) bool { return agg.crashes[i].proc < agg.crashes[j].proc })
+				viol = crashRecord(b, cfg, agg.crashes[0])
+			}
+			if len(agg.records) > 0 {
+				sort.Slice(agg.records, func(i, j int) bool {
+					if agg.records[i].Proc != agg.records[j].Proc {
+						return agg.records[i].Proc < agg.records[j].Proc
+					}
+					return agg.records[i].Build > agg.records[j].Build
+				})
+				viol = agg.records[0]
 			}
 		}
-	}
-	st := (*selfTestResult)(nil)
-	mt := (*modelTestResult)(nil)
-	if viol == nil && cfg.selftest && !degraded {
-		r := selftest(b, cfg, 30, 30)
-		st = &r
-		m := modelTest()
-		mt = &m
-	}
-	code := 0
-	replayPath := ""
-	var final *proto.Record
-	known := loadKnown()
-	if viol != nil {
-		logf("violation observed: class=%s build=%s proc=%d run=%d; confirming and minimising", viol.Class, viol.Build, viol.Proc, viol.Run.Index)
-		final = confirmAndMinimise(b, cfg, viol)
-		final.Trace = renderTrace(b, final)
-		if kf := known.match(final); kf != nil {
-			fmt.Printf("KNOWN-FINDING: property=%s %s\n", propID, kf.Description)
-		} else {
-			os.MkdirAll(filepath.Join(verifDir, "replays"), 0o755)
-			replayPath = filepath.Join(verifDir, "replays", fmt.Sprintf("%s-%d-%s.json", propID, seed, final.Class))
-			writeJSON(replayPath, final)
-			code = 1
+		// determinism cross-check between the two builds (same seed, same proc => same runs)
+		eq, cmp = 0, 0
+		for p, s := range agg.sigAll["race"] {
+			if s2, ok := agg.sigAll["plain"][p]; ok && agg.runsByProc["race"][p] == agg.runsByProc["plain"][p] {
+				cmp++
+				if s == s2 {
+					eq++
+				}
+			}
+		}
+		st, mt = nil, nil
+		if viol == nil && cfg.selftest && !degraded {
+			r := selftest(b, cfg, 30, 30)
+			st = &r
+			m := modelTest()
+			mt = &m
+		}
+		code, replayPath, final = 0, "", nil
+		known := loadKnown()
+		if viol != nil {
+			logf("violation observed: class=%s build=%s proc=%d run=%d; confirming and minimising", viol.Class, viol.Build, viol.Proc, viol.Run.Index)
+			final = confirmAndMinimise(b, cfg, viol)
+			final.Trace = renderTrace(b, final)
+			if kf := known.match(final); kf != nil {
+				if !announced[kf.Description] {
+					fmt.Printf("KNOWN-FINDING: property=%s %s\n", propID, kf.Description)
+					announced[kf.Description] = true
+				}
+				// a listed finding suppresses exactly itself: take the calls it involves out
+				// of the corpus and look again for anything else
+				n0 := len(knownExcluded)
+				for _, t := range final.Run.Tasks {
+					for _, op := range t.Ops {
+						if op.Call >= 0 {
+							knownExcluded[op.Call] = "named by a known finding"
+						}
+					}
+				}
+				if attempt < 6 && len(knownExcluded) > n0 {
+					final, viol = nil, nil
+					again = true
+				}
+			} else {
+				os.MkdirAll(filepath.Join(verifDir, "replays"), 0o755)
+				replayPath = filepath.Join(verifDir, "replays", fmt.Sprintf("%s-%d-%s.json", propID, seed, final.Class))
+				writeJSON(replayPath, final)
+				code = 1
+			}
+		}
+		if !again {
+			break
 		}
 	}
 	if !degraded && viol == nil && cmp > 0 && eq != cmp && len(b.rep.MapRange) == 0 && len(b.rep.ImportsOfNote) == 0 && b.rep.NShared == 0 && pinnedSources() {
